@@ -601,7 +601,6 @@ class CParser(RecursiveDescentParser):
         # Load eventual designators:
         if self.is_c99 and self.peek in [".", "["]:
             # We face designated initializer here...
-            designators = True
             # Retreat to top-level!
             init_cursor.unwind()
             while self.peek in [".", "["]:
@@ -619,8 +618,6 @@ class CParser(RecursiveDescentParser):
                     )
 
             self.consume("=")
-        else:
-            designators = False
 
         # Parse actual initializer.
         typ = init_cursor.level.element_typ()
@@ -630,11 +627,9 @@ class CParser(RecursiveDescentParser):
             initializer = self.parse_constant_expression()
             self.semantics.init_store(init_cursor, initializer)
 
-        # Pop designators:
-        if designators:
-            init_cursor.unwind()
-
-        # Go to next element:
+        # Go to next element. The levels entered by a designator such as
+        # '.b[1]' stay open: the next initializer without designator is for
+        # the subobject after the designated one (C99 6.7.8p17).
         init_cursor.next_element()
 
     def parse_array_designator(self, init_cursor):
